@@ -17,8 +17,7 @@ Record edef := {
   d_type : option str; d_min : Z; d_max : Z;      (* from the data element *)
   d_codes : list (option str);        (* inline code list *)
   d_external : ext_ref;               (* the referenced external code set *)
-  d_regex : option re;
-  d_first_of_optional_composite : bool  (* first component of a composite that is not required *)
+  d_regex : option re
 }.
 
 Definition is_numeric_type (t : option str) : bool :=
@@ -75,7 +74,7 @@ Definition implies (charset icvn : str) (d : edef) (formats : list (option str))
   let absent := match s with [] => true | _ => false end in
   if absent then
     (* missing when required *)
-    str_eqb c (cs "1") && usage_is (d_usage d) "R" && negb (d_first_of_optional_composite d)
+    str_eqb c (cs "1") && usage_is (d_usage d) "R"
   else if usage_is (d_usage d) "N" then
     (* present when not used *)
     str_eqb c (cs "10")
